@@ -19,7 +19,7 @@
 (* Mut # "none" plants a spec mutation to show the invariants are not vacuous.              *)
 EXTENDS NormalEq
 
-CONSTANTS Mode, MaxP, MaxB, Ty, Mut
+CONSTANTS Mode, MaxP, MaxB, Ty, Mut, NumBig
 
 VARIABLES sh        \* the enumerated instance (a record; fields depend on Mode)
 
@@ -150,8 +150,9 @@ W3 == { Ident(3),
         << <<D(2), D(1), D(0)>>, <<D(1), D(2), D(1)>>, <<D(0), D(1), D(2)>> >> }
 Clamps == { <<<<1, 2>>, D(64)>>, <<D(2), D(64)>>, <<<<1, 2>>, D(2)>>, <<D(1), D(1)>> }     \* <<min, max>>
 LamSeqs == { <<D(1)>>, <<DHalf, D(2)>>, <<<<1, 2>>, <<1, 2>>, D(1)>>, <<D(0), D(3)>> }
-RVals == IF MaxB = 1 THEN {-1, 2} ELSE {-1, 0, 2}
+RVals == IF NumBig THEN {-1, 0, 2} ELSE {-1, 2}
 
+NumFull == Mode = "num" /\ sh.ph = "full"
 L == [R |-> sh.R, J |-> sh.J, W |-> IF sh.hasW THEN sh.W ELSE Ident(Len(sh.J)), hasW |-> sh.hasW]
 NN == Len(sh.J[1])
 Box(n) == [1..n -> Ints(-1, 1)]
@@ -172,18 +173,18 @@ TrialMatrix(lo, hi, lams, k) ==
   ELSE MutTrial(MutInit(lo, hi).A, lams, k)
 
 LMDiagonalClosedForm ==
-  Mode = "num" =>
-    LET H == Hessian(L).H IN
-    \A cl \in Clamps : \A lams \in LamSeqs : \A k \in 0..Len(lams) :
-      LET A == TrialMatrix(cl[1], cl[2], lams, k) IN
-      \A i, j \in 1..NN :
-        A[i][j] = IF i = j THEN DMul(DClamp(H[i][i], cl[1], cl[2]), Growth(lams, k)) ELSE H[i][j]
+  NumFull =>
+    \A H \in {Hessian(L).H} :
+      \A cl \in Clamps : \A lams \in LamSeqs : \A k \in 0..Len(lams) :
+        \A A \in {TrialMatrix(cl[1], cl[2], lams, k)} :
+          \A i, j \in 1..NN :
+            A[i][j] = IF i = j THEN DMul(DClamp(H[i][i], cl[1], cl[2]), Growth(lams, k)) ELSE H[i][j]
 LMSymmetric ==
-  Mode = "num" => \A cl \in Clamps : \A lams \in LamSeqs : IsSymmetric(TrialMatrix(cl[1], cl[2], lams, Len(lams)))
+  NumFull => \A cl \in Clamps : \A lams \in LamSeqs : IsSymmetric(TrialMatrix(cl[1], cl[2], lams, Len(lams)))
 \* b = -J'WR is minus half the gradient, H = J'WJ half the second difference of the quadratic model
 LMIsNewtonOnQuadraticModel ==
-  Mode = "num" =>
-    LET h == MutInit(<<1, 20>>, D(1000000))  H == Hessian(L).H  Z == VZero(NN) IN       \* clamps inactive
+  NumFull =>
+    \A h \in {MutInit(<<1, 20>>, D(1000000))} : \A H \in {Hessian(L).H} : \A Z \in {VZero(NN)} :      \* clamps inactive
     /\ \A i \in 1..NN : DMul(D(4), h.b[i]) = DSub(Fq(VNeg(Unit(NN, i))), Fq(Unit(NN, i)))
     /\ \A i, j \in 1..NN : i # j =>
          DMul(D(2), H[i][j]) = DSub(DAdd(Fq(VAdd(Unit(NN, i), Unit(NN, j))), Fq(Z)), DAdd(Fq(Unit(NN, i)), Fq(Unit(NN, j))))
@@ -191,26 +192,28 @@ LMIsNewtonOnQuadraticModel ==
     /\ \A i \in 1..NN : H[i][i] # DZero => h.A[i][i] = H[i][i]
 \* the clamped diagonal lies in [min, max]; damping with lambda >= 0 does not decrease it
 LMClampBounds ==
-  Mode = "num" => \A cl \in Clamps : LET A == LMInit(L, cl[1], cl[2]).A IN
+  NumFull => \A cl \in Clamps : \A A \in {LMInit(L, cl[1], cl[2]).A} :
                     \A i \in 1..NN : ~DLess(A[i][i], cl[1]) /\ ~DLess(cl[2], A[i][i])
 \* Gauss-Newton: least-squares solutions of (W J) d = -(W R)
 GNs == GNSystem(L)
 GNn == NormalForm(GNs.A, GNs.b)
 Res2(d) == LET r == VSub(MatVec(GNs.A, d), GNs.b) IN Dot(r, r)
 GNConsistentSystemIsSolved ==       \* if R = -J d0 then d0 satisfies the normal form, with zero residual
-  Mode = "num" =>
+  NumFull =>
     \A d0 \in Box(NN) :
       LET L0 == [L EXCEPT !.R = VNeg(MatVec(L.J, d0))]
           g0 == GNSystem(L0)  n0 == NormalForm(g0.A, g0.b) IN
       MatVec(n0.N, d0) = n0.g /\ MatVec(g0.A, d0) = g0.b /\ MatVec(L.J, d0) = VNeg(L0.R)
 GNNormalFormMinimises ==            \* a solution of the normal form is a least-squares solution
-  Mode = "num" =>
-    \A d \in Box(NN) : MatVec(GNn.N, d) = GNn.g => \A e \in Box(NN) : ~DLess(Res2(e), Res2(d))
+  NumFull =>
+    \A nf \in {GNn} : \A gs \in {GNs} :
+      LET Rs(d) == LET r == VSub(MatVec(gs.A, d), gs.b) IN Dot(r, r) IN
+      \A d \in Box(NN) : MatVec(nf.N, d) = nf.g => \A rd \in {Rs(d)} : \A e \in Box(NN) : ~DLess(Rs(e), rd)
 \* without weight and clamps and with zero damping LM solves the GN normal form
 LMUndampedIsGN ==
-  (Mode = "num" /\ ~sh.hasW) =>
-    LET h == LMInit(L, <<1, 20>>, D(1000000)) IN
-    (\A i \in 1..NN : GNn.N[i][i] # DZero) => (LMTrial(h.A, <<DZero>>, 1) = GNn.N /\ h.b = GNn.g)
+  (NumFull /\ ~sh.hasW) =>
+    \A h \in {LMInit(L, <<1, 20>>, D(1000000))} : \A nf \in {GNn} :
+      (\A i \in 1..NN : nf.N[i][i] # DZero) => (LMTrial(h.A, <<DZero>>, 1) = nf.N /\ h.b = nf.g)
 
 \* ================================================================== Mode "upd"
 E == INSTANCE LieExact
@@ -221,12 +224,6 @@ UElems == { E!Encode(Ty, E!Elem(t, q, s)) :
 Taus == {<<D(0), D(0), D(0)>>, <<D(2), D(-1), D(4)>>, <<D(-3), D(0), D(1)>>}
 TanOf(tau, phi, sg) == CASE Ty = "SO3" -> phi [] Ty = "SE3" -> tau \o phi [] Ty = "RxSO3" -> phi \o <<sg>> [] Ty = "Sim3" -> tau \o phi \o <<sg>>
 Z3d == <<DZero, DZero, DZero>>
-\* first-order change of a group element under  Exp(eps a) @ X  (tensor layout; see NormalEqTrace)
-FirstOrder(ty, x, a) ==
-  LET Zd == R!Mul(R!ExpNearTrans(DecA(ty, [j \in 1..ADim(ty) |-> <<DZero, a[j]>>])), DecG(ty, Lift(x)))
-      t == <<Du(Zd.t[1]), Du(Zd.t[2]), Du(Zd.t[3])>>
-      q == <<Du(Zd.q[1]), Du(Zd.q[2]), Du(Zd.q[3]), Du(Zd.q[4])>> IN
-  CASE ty = "SO3" -> q [] ty = "SE3" -> t \o q [] ty = "RxSO3" -> q \o <<Du(Zd.s)>> [] ty = "Sim3" -> t \o q \o <<Du(Zd.s)>>
 RetractionIsLeftTranslation ==
   Mode = "upd" =>
     \A tau \in Taus :
@@ -261,12 +258,16 @@ ShapeInit ==
        /\ sh = [m |-> ModelOf(ps, DefaultBlocks)]
   \/ \E nb \in 1..MaxB : \E bs \in [1..nb -> {b \in BlockSpecs : OkBlock(b)}] :
        sh = [m |-> ModelOf(DefaultParams, bs)]
-NumInit ==
-  \E mm \in 2..3 : \E nn \in 1..2 : \E J \in Mats(mm, nn) : \E Rv \in [1..mm -> {D(k) : k \in RVals}] :
-    \E W \in (IF mm = 2 THEN W2 ELSE W3) \cup {<<>>} :
-      sh = [J |-> J, R |-> Rv, W |-> W, hasW |-> W # <<>>]
+\* instances are built in two steps so that TLC spreads the work over its workers
+NumDims == IF NumBig THEN {<<2, 1>>, <<2, 2>>, <<3, 1>>, <<3, 2>>} ELSE {<<2, 1>>, <<2, 2>>, <<3, 1>>}
+NumInit == \E d \in NumDims : \E W \in (IF d[1] = 2 THEN W2 ELSE W3) \cup {<<>>} :
+             \E r1 \in RVals : sh = [ph |-> "seed", mm |-> d[1], nn |-> d[2], W |-> W, r1 |-> r1]
+NumBuild == /\ Mode = "num" /\ sh.ph = "seed"
+            /\ \E J \in Mats(sh.mm, sh.nn) : \E Rv \in [1..sh.mm -> {D(k) : k \in RVals}] :
+                 /\ Rv[1] = D(sh.r1)
+                 /\ sh' = [ph |-> "full", J |-> J, R |-> Rv, W |-> sh.W, hasW |-> sh.W # <<>>]
 UpdInit == \E x \in UElems : sh = [x |-> x]
 Init == CASE Mode = "shape" -> ShapeInit [] Mode = "num" -> NumInit [] Mode = "upd" -> UpdInit
-Next == UNCHANGED sh
+Next == NumBuild
 Spec == Init /\ [][Next]_sh
 ================================================================================
